@@ -90,10 +90,11 @@ def seam_shard(shard, tier, seed, res):
 
 # ------------------------------------------------------------------ histories on one SBC instance
 def history_cases():
-    return ["mutate:fcc-stretch", "mutate:slab-displace", "ABA:fcc100slab/graphene", "ABA:stack/fcc222", "mutate:gas-move"]
+    return ["mutate:fcc-stretch", "mutate:slab-displace", "ABA:fcc100slab.TTF/graphene33", "ABA:stack/fcc222", "mutate:gas-move",
+            "ABA:fcc100slab.TTF/fcc100slab.TTT", "ABA:rocksalt221/fcc222", "ABA:stack/stack.reordered"]
 
 
-def history_shard(shard, tier, seed, res):
+def history_shard(shard, tier, seed, res, tag="c13.history", with_dim=True):
     """Sequences of get_clusters calls on ONE SBC instance (incl. the same Atoms object modified in place between calls);
     every call's clusters and their dimensionality shortcuts are compared with a fresh SBC on a fresh copy."""
     from ase.build import bulk
@@ -107,7 +108,7 @@ def history_shard(shard, tier, seed, res):
     def summary(clusters, bt=0.65):
         out = []
         for c in clusters:
-            out.append((tuple(sorted(int(i) for i in c.indices)), c.get_dimensionality()))
+            out.append((tuple(sorted(int(i) for i in c.indices)), c.get_dimensionality() if with_dim else None, tuple(sorted(int(z) for z in c.species))))
         return sorted(out)
 
     def fresh(at):
@@ -144,29 +145,43 @@ def history_shard(shard, tier, seed, res):
                 res.counters["states"] += 1
                 res.counters["evaluations"] += 1
                 res.counters["transitions"] += 1
-                got = summary(inst.get_clusters(at))
+                try:
+                    got = summary(inst.get_clusters(at))
+                except Exception as e:
+                    got = [("EXC", repr(e)[:80])]
                 want = fresh(at)
                 res.outcomes["hist ncl=%d" % len(got)] += 1
                 if got != want:
                     case = {"kind": "hist", "name": name, "step": step}
-                    res.violation("c13.history", {"name": name, "step": step, "pbc": str(at.get_pbc().tolist())}, dict(case, pbc=at.get_pbc().tolist()),
-                                  "%s: call %d on one SBC instance (same Atoms object modified in place between calls) gives clusters/dimensionalities %s, a fresh SBC on a copy gives %s" % (name, step, [(len(i), d) for i, d in got][:4], [(len(i), d) for i, d in want][:4]))
+                    res.violation(tag, {"name": name, "step": step, "pbc": str(at.get_pbc().tolist())}, dict(case, pbc=at.get_pbc().tolist()),
+                                  "%s: call %d on one SBC instance (same Atoms object modified in place between calls) gives clusters/dimensionalities %s, a fresh SBC on a copy gives %s" % (name, step, [(len(x[0]), x[1]) if x[0] != "EXC" else x for x in got][:4], [(len(x[0]), x[1]) for x in want][:4]))
                     break
                 mut(at)
     else:
         a, b = name.split(":")[1].split("/")
-        A = (base.get(a) if a in base else families.stack_base()).copy()
-        B = (base.get(b) if b in base else families.stack_base()).copy()
+        def pick(n):
+            if n in base:
+                return base[n].copy()
+            st = families.stack_base()
+            if n == "stack.reordered":
+                order = list(range(len(st)))[::-1]
+                st = st[order]
+            return st
+
+        A, B = pick(a), pick(b)
         inst = SBC()
         for step, at in enumerate((A, B, A, B)):
             res.counters["states"] += 1
             res.counters["evaluations"] += 1
             res.counters["transitions"] += 1
-            got = summary(inst.get_clusters(at))
+            try:
+                got = summary(inst.get_clusters(at))
+            except Exception as e:
+                got = [("EXC", repr(e)[:80])]
             want = fresh(at)
             if got != want:
-                res.violation("c13.history", {"name": name, "step": step}, {"kind": "hist", "name": name, "step": step},
-                              "%s: call %d on one SBC instance differs from a fresh SBC" % (name, step))
+                res.violation(tag, {"name": name, "step": step}, {"kind": "hist", "name": name, "step": step},
+                              "%s: call %d on one SBC instance gives %s, a fresh SBC gives %s" % (name, step, [(len(x[0]), x[1]) if x[0] != "EXC" else x for x in got][:4], [(len(x[0]), x[1]) for x in want][:4]))
                 break
     res.nontrivial.add("hist:" + name)
     res.sample({"kind": "history", "name": name})
